@@ -9,4 +9,5 @@ func ThePoints() *Points                                     { return &Points{} 
 func PointsAvailable() bool                                  { return false }
 func (p *Points) Record() func() []string                    { return func() []string { return nil } }
 func (p *Points) Hold(point string, nth int) <-chan struct{} { return make(chan struct{}) }
+func (p *Points) HoldNextIn(funcs ...string) <-chan struct{} { return make(chan struct{}) }
 func (p *Points) Release()                                   {}
